@@ -11,7 +11,7 @@
             every 64-bit occupancy
 """
 import re
-from runner import Job, tu
+from runner import Job, NativeJob, tu
 
 LEVEL = 'proof'
 EXPLANATION = ('Geometry tables: symbolic execution of the real init code, compared entry-wise with spec/geom.h for a symbolic index. '
@@ -79,6 +79,49 @@ def project_table(text, table, gcell):
         out.append('(*verif_cell_%s(%s, %s))' % (table, a, b))
         i = k
     return ''.join(out)
+
+
+# Labelled exhaustive stand-in (never counted as proved): the real move_bitboards::init() followed by the real slider_attack<> for every square
+# and every subset of the relevant-occupancy mask (plus random full occupancies), compared with the ray walk of spec/geom.h.  It exists for the case
+# in which a refactoring of the fill loops makes the loop contracts inapplicable (CONTRACT-DRIFT = undecided): a wrong table entry is then still
+# reported with a concrete failing (square, occupancy).
+TABLE_STANDIN = r"""
+#define _Bool bool
+#include <cstdio>
+#include <cstdint>
+#include "types.h"
+#include "bitboard.h"
+#include "move_bitboards.h"
+#include "geom.h"
+using namespace engine;
+static uint64_t rook_mask(uint32_t s) { uint64_t m = 0; int f = s & 7, r = s >> 3;
+  for (int i = f + 1; i < 7; i++) m |= 1ULL << (r * 8 + i); for (int i = f - 1; i > 0; i--) m |= 1ULL << (r * 8 + i);
+  for (int i = r + 1; i < 7; i++) m |= 1ULL << (i * 8 + f); for (int i = r - 1; i > 0; i--) m |= 1ULL << (i * 8 + f); return m; }
+static uint64_t bishop_mask(uint32_t s) { uint64_t m = 0; int f = s & 7, r = s >> 3;
+  for (int d = 1; f + d < 7 && r + d < 7; d++) m |= 1ULL << ((r + d) * 8 + f + d); for (int d = 1; f - d > 0 && r + d < 7; d++) m |= 1ULL << ((r + d) * 8 + f - d);
+  for (int d = 1; f + d < 7 && r - d > 0; d++) m |= 1ULL << ((r - d) * 8 + f + d); for (int d = 1; f - d > 0 && r - d > 0; d++) m |= 1ULL << ((r - d) * 8 + f - d); return m; }
+int main() {
+  move_bitboards::init();
+  long n = 0, bad = 0; uint64_t x = 0x9E3779B97F4A7C15ULL;
+  for (uint32_t s = 0; s < 64; s++) for (int piece = 0; piece < 2; piece++) {
+    uint64_t mask = piece ? rook_mask(s) : bishop_mask(s), sub = 0;
+    do {                                                       // every subset of the relevant squares (carry-rippler), empty and full included
+      for (int noise = 0; noise < 2; noise++) {                // and the same subset with arbitrary irrelevant squares occupied
+        x ^= x << 13; x ^= x >> 7; x ^= x << 17;
+        uint64_t occ = sub | (noise ? (x & ~mask) : 0);
+        uint64_t got = piece ? slider_attack<ROOK>(Square(s), occ) : slider_attack<BISHOP>(Square(s), occ);
+        uint64_t want = piece ? spec_rook_walk(s, occ) : spec_bishop_walk(s, occ);
+        n++;
+        if (got != want) { if (bad < 10) printf("CONFIRMED %s on %c%c, occupancy %016llx: engine %016llx, ray walk %016llx\n", piece ? "rook" : "bishop", 'a' + (s & 7), '1' + (s >> 3),
+                                                 (unsigned long long)occ, (unsigned long long)got, (unsigned long long)want); bad++; }
+      }
+      sub = (sub - mask) & mask;
+    } while (sub);
+  }
+  printf("compared %ld (square, occupancy) pairs: every subset of every relevant-occupancy mask, with and without irrelevant occupied squares; mismatches %ld\n", n, bad);
+  return bad ? 1 : 0;
+}
+"""
 
 
 def jobs(tier, seed):
@@ -223,4 +266,6 @@ void h_flines(void) {
     out.append(Job('magic/slider_attack_5', TUS, ['slider_attack_5'], h, 'h_queen', contracts={'slider_attack_3': c3, 'slider_attack_4': c4, 'slider_attack_5': c5},
                    nobody=['slider_attack_3', 'slider_attack_4'], enforce='slider_attack_5', replace=['slider_attack_3', 'slider_attack_4'],
                    spec=['geom.h'], timeout=600, note='queen look-up == union of the two walks (bishop/rook look-ups by contract)'))
+    out.append(NativeJob('magic/tables_exhaustive', TABLE_STANDIN, 'exhaustive-native stand-in: real init() + slider_attack<> for all 64 squares x all subsets of the relevant mask (x2 with irrelevant squares occupied)', spec=['geom.h'],
+                         timeout=600, note='real move_bitboards::init() and slider_attack<BISHOP|ROOK> versus the ray walk, every table entry'))
     return out
